@@ -229,6 +229,16 @@ class DCSub(DCBase):
     _h: int = 0
 
 
+class AnnBareClassVar:
+    """a BARE `ClassVar` annotation (no parameter) is a class variable too"""
+    registry: typing.ClassVar = {"shared": True}
+    name: typing.Any
+    size: int
+
+    def __init__(self, name, size):
+        self.name, self.size = name, size
+
+
 class AnnClassVar:
     K: typing.ClassVar[int] = 7
     a: int
@@ -387,6 +397,7 @@ FACTORIES = {
     "VarsNoArgs": (VarsNoArgs, ["p", "q"]),
     "Empty": (Empty, []),
     "AnnClassVar": (lambda: AnnClassVar((1, 2), "ab"), ["a", "b"]),
+    "AnnBareClassVar": (lambda: AnnBareClassVar((1, 2), 3), ["name", "size"]),
     "AnnSlotsBase": (lambda: AnnSlotsBase(1, (1, 2)), ["x", "y"]),
     "AnnSlotsSub": (lambda: AnnSlotsSub(1, "ab", [3]), ["x", "y", "z"]),
     "AnnSlotsSub-pairfirst": (lambda: AnnSlotsSub((1, 2), None, "xy"), ["x", "y", "z"]),
